@@ -87,9 +87,9 @@ pub fn parse_rootdefinition_globalvariable(
                         .module
                         .type_registry
                         .get_type_layer(unmodified_base_id);
-                    if let ir::TypeLayer::Object(ot) = unmodified_base_tyl {
-                        let expected_slot_type = ot.get_register_type();
-
+                    if let ir::TypeLayer::Object(ot) = unmodified_base_tyl
+                        && let Some(expected_slot_type) = ot.get_register_type()
+                    {
                         let index = if let Some(slot) = &register.slot {
                             if slot.slot_type != expected_slot_type {
                                 return Err(TyperError::InvalidRegisterType(
